@@ -1,7 +1,7 @@
 (* C20 — a run depends only on its own arguments. *)
 From Coq Require Import List Arith.
 Import ListNotations.
-From Yaqs Require Import Model.Params Proofs.ParamsP Model.ObjStore Proofs.ObjStoreP.
+From Yaqs Require Import Model.Params Proofs.ParamsP Model.ObjStore Proofs.ObjStoreP Model.DigitalLoop Model.InitRule Gen.InitGen Proofs.InitGenP.
 
 (* strong / analog front-ends: whatever sequence of noisy and noise-free runs was made before on the same parameter
    object, a run executes as many trajectories as a fresh object would *)
@@ -47,6 +47,28 @@ Theorem C20_sampled_noise_model_unchanged : forall h nm internal,
   forall i, i < length h -> nth_error (run_on_sample h nm internal) i = nth_error h i.
 Proof. exact sampled_run_leaves_model. Qed.
 Print Assumptions C20_sampled_noise_model_unchanged.
+
+(* result storage is re-initialised per run, as the SOURCE states it now (Gen/InitGen.v is regenerated from Observable.initialize on every
+   run): the shape of Observable.trajectories and the length of Observable.results are a function of the parameter object of THIS run
+   alone — one row per requested trajectory or shot, the columns the front-end models count — never of what an earlier run left behind *)
+Theorem C20_source_allocation_is_model : forall k flag num_traj ntimes shots mid,
+  init_shape_src k flag num_traj ntimes shots mid = init_shape k flag num_traj ntimes shots mid.
+Proof. exact init_shape_src_is_model. Qed.
+Print Assumptions C20_source_allocation_is_model.
+Theorem C20_source_strong_allocation_matches_front_end : forall sampling n ntimes shots (c : list instr),
+  init_shape_src KStrong sampling n ntimes shots (length (filter (is_kind SBar) c))
+  = Some (n, columns_allocated sampling c, columns_allocated sampling c).
+Proof. exact strong_allocation_matches_front_end. Qed.
+Print Assumptions C20_source_strong_allocation_matches_front_end.
+Theorem C20_source_strong_allocation_matches_layers : forall labelled p n ntimes shots,
+  init_shape_src KStrong (sample_layers p) n ntimes shots labelled = Some (n, snd (run_layers labelled p), snd (run_layers labelled p)).
+Proof. exact strong_allocation_matches_layers. Qed.
+Print Assumptions C20_source_strong_allocation_matches_layers.
+Theorem C20_source_weak_and_analog_allocation : forall flag n ntimes shots mid,
+  init_shape_src KWeak flag n ntimes shots mid = Some (shots, 1, 1)
+  /\ init_shape_src KAnalog flag n ntimes shots mid = Some (n, (if flag then ntimes else 1), ntimes).
+Proof. intros. split; [apply weak_allocation|apply analog_allocation]. Qed.
+Print Assumptions C20_source_weak_and_analog_allocation.
 
 Example C20_example : snd (run_strong true (strong_history [false; true; false] {| num_traj := 7; traj_rows := 0 |})) = 7
   /\ snd (run_weak false (weak_history [true] {| shots := 5; meas := repeat None 5 |})) = 5.
